@@ -238,6 +238,15 @@ func (cc *Conn) Context() context.Context {
 	return cc.session.Context()
 }
 
+// Ping issues a PING to the peer and waits for the PONG.
+//
+// The loop that reads received messages is handed over first (as doInternal does), so that Ping can be
+// called from a handler: the pong, and everything queued before it, is processed while Ping waits.
+func (cc *Conn) Ping(ctx context.Context) error {
+	cc.receivedMessageReader.TryToReplaceLoop()
+	return cc.Client.Ping(ctx)
+}
+
 // AsyncPing sends ping and receivedPong will be called when pong arrives. It returns cancellation of ping operation.
 func (cc *Conn) AsyncPing(receivedPong func()) (func(), error) {
 	token, err := message.GetToken()
